@@ -130,6 +130,8 @@ STAGES = {
     "teetsv": (lambda t, p: etl.teetsv(t, etl.MemorySource(), write_header=False), 3),
     "teepickle": (lambda t, p: etl.teepickle(t, etl.MemorySource()), 3),
     "teehtml": (lambda t, p: etl.teehtml(t, etl.MemorySource()), 3),
+    "teehtml_trstyle": (lambda t, p: etl.teehtml(t, etl.MemorySource(), tr_style=lambda rec: "x"), 3),
+    "teetext": (lambda t, p: etl.teetext(t, etl.MemorySource(), template="row\n", prologue="p", epilogue="e"), 3),
     "cache": (lambda t, p: petl_cache(t), 3),
     "cache_n": (lambda t, p: petl_cache(t, n=2), 3),
 }
@@ -470,7 +472,7 @@ def check_db(case, ctx):
 # ---- look / see / repr ---------------------------------------------------------------------------------
 def vis_cases(tier):
     for fn in ("look", "see", "repr", "str", "repr_html", "lookstr", "values_repr", "slice_table", "slice_step", "slice_values",
-               "slice_dicts", "index_table"):
+               "slice_dicts", "index_table", "slice_open", "slice_open_step", "slice_open_values"):
         for limit in (1, 3, 5):
             for depth in (0, 1, 2):
                 yield {"fn": fn, "limit": limit, "depth": depth}
@@ -507,6 +509,13 @@ def check_vis(case, ctx):
                 o = repr(list(etl.values(t, "k")[:lim]))
             elif fn == "slice_dicts":
                 o = repr([sorted(d.items(), key=repr) for d in etl.dicts(t)[0:lim]])
+            elif fn == "slice_open":
+                # an open-ended slice is itself lazy: only what is then taken from it is read
+                o = repr([tuple(r) for r in itertools.islice(etl.wrap(t)[1:], lim)])
+            elif fn == "slice_open_step":
+                o = repr([tuple(r) for r in itertools.islice(etl.wrap(t)[1::3], lim)])
+            elif fn == "slice_open_values":
+                o = repr(list(itertools.islice(etl.values(t, "k")[2:], lim)))
             elif fn == "index_table":
                 o = repr(tuple(etl.wrap(t)[lim]))
             else:
